@@ -18,7 +18,7 @@
     uses the same token (C14; oracle + balance correspondence). *)
 From LP Require Import Proofs.Tactics Proofs.LedgerBase Proofs.Gates Proofs.Frames Proofs.Settle Proofs.Confirm Proofs.Ledger
   Proofs.ClaimLedger Proofs.Loop Proofs.Resume Proofs.FisherYates Proofs.Shuffle Proofs.Rng Proofs.Filter Proofs.Partition
-  Proofs.GuaranteedLoop Proofs.Leftover Proofs.Lifecycle Proofs.Setup Proofs.Examples.
+  Proofs.GuaranteedLoop Proofs.Leftover Proofs.Lifecycle Proofs.Setup Proofs.SetupGt Proofs.Examples.
 Open Scope N_scope.
 
 Theorem C01_confirm_keeps_solvency : forall (H : list N -> list N) v e b sd w n w' r A,
@@ -215,6 +215,27 @@ Theorem C01_from_deployment : forall (H : list N -> list N) v w0 lf wf ef bf w1 
     claimable_payment (st w2) = price (st w0) * k /\ confirmed (st w2) = confirmed (st w0).
 Proof. exact deployed_pipeline. Qed.
 
+(** the guaranteed-ticket contracts gt1, mig, lgt (v1 allocation) and gt2 (v2 allocation): from a
+    deployment with an ESDT launchpad token through allocation with guarantees (v1: positive sizes),
+    deposit, confirmation, pause / unpause, tokens-per-ticket, timeline and support transactions,
+    then the three selection stages, each interrupted arbitrarily *)
+Theorem C01_from_deployment_gt : forall (H : list N -> list N) v v2 w0 lf wf ef bf w1 ls ws es bs w2 sd rest ld wd ed bd w3,
+  guar v -> setup_reach_gt H v w0 ->
+  after_interrupted filter_tickets lf w0 = Some wf -> filter_tickets ef bf wf = Ok (w1, 0) ->
+  seeds w1 = sd :: rest ->
+  after_interrupted (select_winners H) ls w1 = Some ws -> select_winners H es bs ws = Ok (w2, 0) ->
+  after_interrupted (distribute_guaranteed_tickets H v2) ld w2 = Some wd ->
+  distribute_guaranteed_tickets H v2 ed bd wd = Ok (w3, 0) ->
+  exists l : list (N * N),
+    ClaimInv w3 (map fst l) /\
+    dist_result v2 (st w2) (st w3) /\
+    (forall u, In u (gt_users (st w2)) -> owed v2 (st w2) u <= own_winning (st w2) (st w3) u) /\
+    (forall t, status (st w2) t = true -> status (st w3) t = true).
+Proof. exact deployed_pipeline_gt. Qed.
+
+Example C01_setup_gt_nonvacuous : setup_reach_gt sha256 Gt2 gt2_confirmed.
+Proof. exact gt2_confirmed_reachable. Qed.
+
 (** the concrete history of [Examples] (deployment, allocation of 3 + 2, deposit, two confirmations,
     each an [exec] transaction) is such a set-up history *)
 Example C01_setup_nonvacuous : setup_reach sha256 Base base_confirmed.
@@ -263,6 +284,8 @@ Print Assumptions C01_pipeline_gt.
 Print Assumptions C01_setup_reach.
 Print Assumptions C01_from_deployment.
 Print Assumptions C01_setup_nonvacuous.
+Print Assumptions C01_from_deployment_gt.
+Print Assumptions C01_setup_gt_nonvacuous.
 Print Assumptions C01_pipeline_nonvacuous.
 Print Assumptions C01_claim_nonvacuous.
 Print Assumptions C01_nonvacuous.
